@@ -5,6 +5,7 @@ NAME = "view"
 MODULE = "cspuz.puzzle.view"
 FUNC = "solve_view"
 TIER1 = ("View", "solve_view_model")
+TIER1_PRIM = ("ViewPrim", "solve_view_model_prim")
 
 
 def call(mod, pb):
